@@ -24,6 +24,8 @@ def run_c17(R, tier, rng):
     import numpy as np
     from npstructures import RaggedArray, RunLengthRaggedArray, RunLength2dArray, RunLengthArray
     C = Ctx(R, "rl2d")
+    from vlib import show as vshow, oracle as voracle, parse as vparse
+    ANY_CASES = []
     n_obj = 900 if tier == "thorough" else 220
     # float column sums with values whose differences are not representable (F38): numpy's own column sums of the dense rows, bit for bit
     FV = [0.1, 0.2, 1e16, -1e16, 0.5, 1.0, 0.3, 0.7]
@@ -212,6 +214,12 @@ def run_c17(R, tier, rng):
                 r = mk(); s1 = kl(np.asarray(r.sum(axis=0).to_array())); d1 = dense_rows(r); s2 = kl(np.asarray(r.sum(axis=0).to_array()))
                 return [s1 == s2, d1, kl(np.asarray(r.sum(axis=-1)))]
             C.cmp(f"sum(axis=0) then other reads {tag}", "col-sum-then-reads", nt, after_colsum_r, lambda: [True, [kl(a) for a in A], kl(np.array([a.sum() for a in A]))], py=pyb + "; rl.sum(axis=0); rl.to_array(); rl.sum(axis=0) again; rl.sum(axis=-1)")
+        # any(axis=0) against the model of _col_any (Model/RL2Any.v: exact run boundaries and values) and against the column-wise OR of the dense rows
+        if not dt.startswith("float"):
+            def anyrepr():
+                r = mm().any(axis=0)
+                return [[int(x) for x in np.asarray(r._events)], [int(bool(x)) for x in np.asarray(r._values)], [int(bool(x)) for x in np.asarray(r.to_array())]]
+            ANY_CASES.append(("rl2_any " + vshow([[int(v) for v in r_] for r_ in np.array(M, dtype=dt).astype(object).tolist()]), guarded(anyrepr), mtag, pym, nt))
         C.cmp(f"any(axis=0) {mtag}", "matrix/col-any", nt, lambda: kl(np.asarray(mm().any(axis=0).to_array(), dtype=bool)), lambda: kl(MA.any(axis=0)), py=pym + "; m.any(axis=0).to_array()")
         C.cmp(f"any/all(axis=-1) {mtag}", "matrix/row-any-all", nt, lambda: [kl(np.asarray(mm().any(axis=-1))), kl(np.asarray(mm().all(axis=-1)))], lambda: [kl(MA.any(axis=-1)), kl(MA.all(axis=-1))], py=pym + "; m.any(axis=-1), m.all(axis=-1)")
         s = al[(t + 1) % len(al)]; s = bool(s) if dt == "bool" else float(s) if dt == "float64" else int(s)
@@ -250,3 +258,11 @@ def run_c17(R, tier, rng):
         st = [rng.randrange(0, L) for _ in range(k)]; en = [rng.randint(s0 + 1, L) for s0 in st]
         C.cmp(f"from_intervals {st} {en} {L}", "intervals", k >= 2, lambda: kl(np.asarray(RunLength2dArray.from_intervals(np.array(st), np.array(en), L).to_array(), dtype=bool)),
               lambda: [[s0 <= p < e0 for p in range(L)] for s0, e0 in zip(st, en)], py=f"RunLength2dArray.from_intervals(np.array({st}), np.array({en}), {L}).to_array()")
+    # any(axis=0): the extracted model of _col_any and the dense specification, one oracle call for all matrices
+    outs = voracle([c[0] for c in ANY_CASES])
+    for (line, impl, mtag, pym, nt), o in zip(ANY_CASES, outs):
+        if o.startswith("ERR"): mo = sp = "oracle-error: " + o[:80]
+        else:
+            mo, spd = vparse(o)
+            sp = [mo[0], mo[1], spd] if isinstance(mo, list) and mo[2] == spd else ["model decodes to", mo[2] if isinstance(mo, list) else mo, "dense OR is", spd]
+        R.record("rl2d any(axis=0) runs " + mtag, impl, mo, sp, nt, "matrix/col-any/model", py=pym + "; r = m.any(axis=0); r._events, r._values, r.to_array()")
